@@ -144,17 +144,13 @@ def run(ctx, chk):
         lo, hi = sb.returns[0][1][1]
         H = f"each({gb.params[0]}.scenario_dict['host'].values())"
 
-        def acc(fn, init, attr):
-            return f"loop({'min' if fn == 'min' else 'max'}_value: {init} -> " \
-                   f"{fn}(@{'min' if fn == 'min' else 'max'}_value, {H}.{attr}))"
-        lo_args = {cn.show(a) for a in lo[2]} if lo[0] == "call" else set()
-        hi_args = {cn.show(a) for a in hi[2]} if hi[0] == "call" else set()
-        lo_need = {"0", acc("min", "math.inf", "value"), acc("min", "math.inf", "discovery_value")}
-        hi_need = {"1", acc("max", "-math.inf", "value"), acc("max", "-math.inf",
-                                                               "discovery_value"),
-                   str(lv["ROOT"])}
-        ok_lo = lo[0] == "call" and lo[1] == "builtins.min" and lo_need <= lo_args
-        ok_hi = hi[0] == "call" and hi[1] == "builtins.max" and hi_need <= hi_args
+        from .shapes import extremum_candidates
+        lo_args = extremum_candidates(ip, cn, lo, "min")
+        hi_args = extremum_candidates(ip, cn, hi, "max")
+        lo_need = {"0", f"{H}.value", f"{H}.discovery_value"}
+        hi_need = {"1", f"{H}.value", f"{H}.discovery_value", str(lv["ROOT"])}
+        ok_lo = lo_need <= lo_args
+        ok_hi = hi_need <= hi_args
         chk.ob("C10.bounds", "low = min(0, min host value, min discovery value, ...) over all hosts",
                ok_lo, f"min over {sorted(lo_args)}; missing {sorted(lo_need - lo_args)}",
                gb.module.path)
